@@ -9,6 +9,7 @@ import re
 import numpy as np
 import z3
 
+import mirsym
 import models_core
 from mirsym import (NONE, Enum, Err, Num, Ok, Opaque, PanicPath, Ref, RVec, Some, Struct, Tuple, Unmodelled, b_and,
                     b_not, b_or, clone_val, ite, num_fn, zbool)
@@ -461,6 +462,21 @@ def m_bool_or(eng, callee, args):
     return bool_ten(out.reshape(a.shape))
 
 
+@model(NUMERIC + r"float$|" + BASE + r"float$|" + NUMERIC + r"int$|" + BASE + r"int$", "Bool/Int tensor -> numeric tensor: true = 1, false = 0")
+def m_bool_float(eng, callee, args):
+    a = ten(args[0]).a
+
+    def conv(x):
+        if isinstance(x, Num):
+            return x
+        if isinstance(x, bool):
+            return Num(1 if x else 0)
+        if isinstance(x, z3.BoolRef):
+            return Num(z3.If(x, z3.RealVal(1), z3.RealVal(0)))
+        return Num.of(x)
+    return Ten(elementwise(a, conv))
+
+
 @model(NUMERIC + r"bool_not$", "Bool tensor not")
 def m_bool_not(eng, callee, args):
     return bool_ten(elementwise(ten(args[0]).a, b_not))
@@ -495,9 +511,23 @@ def m_into_scalar(eng, callee, args):
     return a.reshape(-1)[0]
 
 
-@model(r"as ToElement>::to_f64$|as ToElement>::to_f32$|^<\w+ as ToElement>::to_f32$", "ToElement::to_f64/to_f32 (R-mode identity)")
+def _narrows(eng, src, dst):
+    """does converting element type `src` to `dst` lose precision in this engine's configuration?"""
+    if not getattr(eng, "narrowing", False):
+        return False
+    src = eng.typemap.get(src, src)
+    dst = eng.typemap.get(dst, dst)
+    return src == "f64" and dst == "f32"
+
+
+@model(r"as ToElement>::to_f64$|as ToElement>::to_f32$|^<\w+ as ToElement>::to_f32$", "ToElement::to_f64/to_f32 (R-mode identity; "
+       "f64 -> f32 is an uninterpreted rounding when the engine runs an f64 configuration with narrowing on)")
 def m_to_f64(eng, callee, args):
-    return Num.of(deref(args[0]))
+    v = Num.of(deref(args[0]))
+    m = re.match(r"^<(\w+) as (?:\w+::)*ToElement>::to_f32$", callee)
+    if m and _narrows(eng, m.group(1), "f32"):
+        return mirsym.narrow32(v)
+    return v
 
 
 @model(r"as ToElement>::to_bool$", "ToElement::to_bool")
@@ -514,6 +544,9 @@ def m_to_data(eng, callee, args):
 @model(r"^burn::tensor::TensorData::iter::<", "TensorData::iter::<E>: the values converted to E")
 def m_tdata_iter(eng, callee, args):
     d = deref(args[0])
+    m = re.search(r"iter::<(\w+)>", callee)
+    if m and _narrows(eng, d.dtype, m.group(1)):
+        return PyIter([mirsym.narrow32(v) for v in d.vals])
     return PyIter(list(d.vals))
 
 
@@ -533,6 +566,8 @@ def m_tdata_as_slice(eng, callee, args):
 def m_tdata_convert(eng, callee, args):
     d = deref(args[0])
     m = re.search(r"convert::<(\w+)>", callee)
+    if m and _narrows(eng, d.dtype, m.group(1)):
+        return TData([mirsym.narrow32(v) for v in d.vals], d.shape, m.group(1))
     return TData(d.vals, d.shape, m.group(1) if m else d.dtype)
 
 
